@@ -44,7 +44,7 @@ def run_worker(modrel, ob, tier, scratch, idx, canary=None):
     # within hours (VERIF_MAX_BUDGET, seconds; an obligation that hits it is UNKNOWN, never success)
     budget = ob.timeout
     if tier == "thorough":
-        budget = min(budget, int(os.environ.get("VERIF_MAX_BUDGET", "1200")))
+        budget = min(budget, int(os.environ.get("VERIF_MAX_BUDGET", "900")))
     if canary is not None:
         cmd += ["--canary", str(canary)]
         budget = min(budget, 300)
